@@ -182,7 +182,6 @@ class OverflowAction(Contract):
             v = [D.int('r%d' % i, 0, 2**64 - 1) for i in range(n)]
         elif c == 'objint':
             v = [D.int('r%d' % i) for i in range(n)]
-            assume_no_int64_uint64_mix(D, v)
         else:
             v = [D.real('r%d' % i) for i in range(n)]
         return {'r': v, 'st': sym_status(D)}
@@ -220,9 +219,9 @@ class OverflowAction(Contract):
         out['flag_others'] = And(Iff(B(st1['inaccuracy']), B(st0['inaccuracy'])), st1['extended_prec'] == (n >= 64),
                                  set(st1) == {'overflow', 'underflow', 'inaccuracy', 'extended_prec'})
         log = obs['log']
-        # the log is concrete per path; it must be [overflow?][underflow?] exactly for what occurred
+        # the log is concrete per path: each notification at most once, exactly for what occurred (no order is demanded)
         out['log'] = And(Iff('overflow' in log, any_hi), Iff('underflow' in log, any_lo),
-                         log == [k for k in ('overflow', 'underflow') if k in log])
+                         sorted(log) == sorted(set(log)), set(log) <= {'overflow', 'underflow'})
         return out
 
     def stubs(self, P):
@@ -412,15 +411,16 @@ class SetVal(Contract):
         out['flag_underflow'] = Iff(B(st1['underflow']), Or(B(st0['underflow']), any_lo))
         out['flag_inaccuracy'] = Iff(B(st1['inaccuracy']), Or(B(st0['inaccuracy']), inexact))
         log = obs['log']
-        order = [e for e in ('overflow', 'underflow', 'inaccuracy', 'value_change') if e in log]
-        out['log'] = And(log == order, 'value_change' in log, Iff('overflow' in log, any_hi),
+        # once per write, exactly for the conditions that occurred, plus one value-change notification (order free)
+        out['log'] = And(sorted(log) == sorted(set(log)), set(log) <= {'overflow', 'underflow', 'inaccuracy', 'value_change'},
+                         'value_change' in log, Iff('overflow' in log, any_hi),
                          Iff('underflow' in log, any_lo), Iff('inaccuracy' in log, inexact))
         if cfg['carrier'] == 'code':
             cs = [M(c) for c in inp['codes']]
             out['idem_code'] = And(*[eq(codes[i], cs[i]) for i in range(len(cs))])
             out['idem_flags'] = And(Iff(B(st1['overflow']), B(st0['overflow'])), Iff(B(st1['underflow']), B(st0['underflow'])),
                                     Iff(B(st1['inaccuracy']), B(st0['inaccuracy'])))
-            out['idem_log'] = log == ['value_change']
+            out['idem_log'] = log == ['value_change']      # nothing but the value-change notification
         return out
 
 
@@ -521,14 +521,21 @@ class WideStore(Contract):
             for signed in (True, False):
                 for f in sorted({0, 1, n // 2, n - 1, n}) if tier == 'thorough' else (0, n // 2, n):
                     for mode in OVERFLOWS:
-                        for route in ('ctor_raw', 'ctor_value', 'set_val_raw', 'call_value', 'setitem_raw'):
+                        for route in ('ctor_raw', 'ctor_value', 'set_val_raw', 'call_value', 'setitem_raw', 'ctor_raw_array', 'ctor_like', 'ctor_template'):
                             yield dict(signed=signed, n_word=n, n_frac=f, mode=mode, route=route)
+            if n == 64:      # an inferred word never exceeds the configured maximum (64)
+                for signed in (True, False):
+                    yield dict(signed=signed, n_word=n, n_frac=None, mode='saturate', route='nfrac_omitted')
         for n in (63, 62, 52):      # the indicator is not set below 64 bits
             yield dict(signed=True, n_word=n, n_frac=0, mode='saturate', route='ctor_raw')
 
     def inputs(self, cfg, D):
         if cfg['n_word'] < 64:
             return {'c': D.int('c', -2**61, 2**61), 'st': sym_status(D)}
+        if cfg['route'] == 'ctor_raw_array':
+            cs = [D.int('c'), D.int('c1')]
+            assume_no_int64_uint64_mix(D, cs)
+            return {'c': cs[0], 'c1': cs[1], 'st': sym_status(D)}
         return {'c': D.int('c'), 'st': sym_status(D)}
 
     def run(self, cfg, P, inp):
@@ -536,6 +543,17 @@ class WideStore(Contract):
         c = inp['c']
         if route == 'ctor_raw':
             x = P.Fxp(c, s, n, f, raw=True, overflow=mode)
+        elif route == 'ctor_raw_array':
+            x = P.Fxp([inp['c1'], c], s, n, f, raw=True, overflow=mode, rounding='around')
+        elif route == 'ctor_like':
+            t = make_fxp(P, s, n, f, codes=[0], shape=(), cfg={'overflow': mode}, vdtype=float)
+            x = P.Fxp(c, like=t, raw=True)
+        elif route == 'ctor_template':
+            t = make_fxp(P, s, n, f, codes=[0], shape=(), cfg={'overflow': mode}, vdtype=float)
+            x = P.Fxp(c, template=t, raw=True)
+        elif route == 'nfrac_omitted':
+            x = P.Fxp(None, s, n)
+            return obs_fxp(x)
         elif route == 'ctor_value':
             x = P.Fxp(c, s, n, f, overflow=mode)
         else:
@@ -554,12 +572,20 @@ class WideStore(Contract):
             return {}
         s, n, f, mode, route = cfg['signed'], cfg['n_word'], cfg['n_frac'], cfg['mode'], cfg['route']
         lo, hi = range_of(s, n)
+        st = obs['status']
+        if route == 'nfrac_omitted':
+            return {'extended_prec': st['extended_prec'] == (n >= 64), 'word': obs['n_word'] == n}
         c = M(inp['c'])
-        R = c if route in ('ctor_raw', 'set_val_raw', 'setitem_raw') else scale2(c, f)
+        R = c if route in ('ctor_raw', 'set_val_raw', 'setitem_raw', 'ctor_raw_array', 'ctor_like', 'ctor_template') else scale2(c, f)
         codes = [M(v) for v in elems(obs['val'])]
         z = codes[-1]
-        st = obs['status']
-        fresh = route in ('ctor_raw', 'ctor_value')
+        fresh = route in ('ctor_raw', 'ctor_value', 'ctor_like', 'ctor_template', 'ctor_raw_array')
+        if route == 'ctor_raw_array':
+            c1 = M(inp['c1'])
+            extra = {'code_first': eq(codes[0], OVF(c1, s, n, mode)),
+                     'flag_overflow': Iff(B(st['overflow']), Or(R > hi, c1 > hi)), 'flag_underflow': Iff(B(st['underflow']), Or(R < lo, c1 < lo))}
+        else:
+            extra = {}
         o0 = (lambda k: False) if fresh else (lambda k: B(inp['st'][k]))
         out = {'code': eq(z, OVF(R, s, n, mode)), 'in_range': And(z >= lo, z <= hi),
                'flag_overflow': Iff(B(st['overflow']), Or(o0('overflow'), R > hi)),
@@ -569,6 +595,7 @@ class WideStore(Contract):
                'format': And(obs['n_word'] == n, obs['n_frac'] == f, obs['dtype'] == fmt_str(s, n, f))}
         if route == 'setitem_raw':
             out['other_unchanged'] = eq(codes[0], 0)
+        out.update(extra)
         return out
 
 
